@@ -86,3 +86,9 @@ func (c *Conn) VerifUDPChildren() int {
 	}
 	return len(c.connUDP.conns)
 }
+
+// VerifBindPoller assigns the poller the engine would choose for the connection, without
+// registering it (used where library code sets a deadline on a connection before AddConn).
+func (g *Engine) VerifBindPoller(c *Conn) {
+	c.p = g.pollers[c.Hash()%len(g.pollers)]
+}
